@@ -68,6 +68,18 @@ TARGETED = [
         {"name": "second", "type": "ns.Item"},
         {"name": "kinds", "type": {"type": "array", "items": "ItemKind"}, "default": []}]},
      [{"first": {"kind": "B", "n": 1}, "second": {"n": 2}, "kinds": ["A", "B"]}, {"first": {}, "second": {"kind": "B"}}]),
+    # a null-namespace record nested in a namespaced one, below a non-record top level (parsing the
+    # parsed form again must not move it, and what it defines, into the enclosing namespace)
+    ({"type": "array", "items": {"type": "record", "name": "Outer", "namespace": "geo", "fields": [
+        {"name": "p", "type": {"type": "record", "name": "Point", "namespace": "", "fields": [
+            {"name": "x", "type": "int"}, {"name": "k", "type": {"type": "enum", "name": "Kind", "symbols": ["A", "B"]}},
+            {"name": "k2", "type": "Kind"}, {"name": "next", "type": ["null", "Point"], "default": None}]}},
+        {"name": "n", "type": "int", "default": 0}]}},
+     [[{"p": {"x": 1, "k": "A", "k2": "B", "next": {"x": 2, "k": "B", "k2": "A"}}}]]),
+    ({"type": "map", "values": ["null", {"type": "record", "name": "Outer", "namespace": "geo", "fields": [
+        {"name": "p", "type": {"type": "record", "name": "Point", "namespace": "", "fields": [
+            {"name": "x", "type": "int"}, {"name": "more", "type": {"type": "array", "items": "Point"}, "default": []}]}}]}]},
+     [{"a": {"p": {"x": 1, "more": [{"x": 2}]}}, "b": None}]),
     ({"type": "record", "name": "Hand", "namespace": "demo", "fields": [
         {"name": "top", "type": {"type": "record", "name": "Card", "fields": [
             {"name": "suit", "type": {"type": "enum", "name": "Suit", "symbols": ["S", "H"]}}, {"name": "rank", "type": "int"}]}},
@@ -266,6 +278,22 @@ def run_ops(fa, schema, data, seed, rereads, skip_generate=False, raw=None):
         fo = io.BytesIO()
         fa.writer(fo, copy.deepcopy(raw), list(data))
         res.append(list(fa.reader(io.BytesIO(fo.getvalue()), reader_schema=schema)))
+        # a writer that lacks the defaulted top-level fields: this form, as reader schema, supplies the defaults
+        if isinstance(raw, dict) and raw.get("type") in ("record", "error"):
+            names = {f["name"] for f in raw.get("fields", []) if "default" in f}
+            if names and len(names) < len(raw["fields"]):
+                older = dict(copy.deepcopy(raw), fields=[copy.deepcopy(f) for f in raw["fields"] if f["name"] not in names])
+                try:
+                    RS.build(older)
+                except Exception:
+                    older = None
+                if older is not None:
+                    for d in data:
+                        if not isinstance(d, dict):
+                            continue
+                        b = io.BytesIO()
+                        fa.schemaless_writer(b, copy.deepcopy(older), {k: v for k, v in d.items() if k not in names})
+                        res.append(fa.schemaless_reader(io.BytesIO(b.getvalue()), copy.deepcopy(older), schema))
         return res
 
     out["resolve"] = obs(resolve) if raw is not None else ("ok", None)
@@ -469,7 +497,7 @@ def run_shard(spec):
     i = 0
     while i < spec["n"] and not sh.out_of_time():
         i += 1
-        case = gen_case(rng, dict(bytes_defaults=0.0, max_nodes=16, max_depth=4, logical=rng.random() < 0.15),
+        case = gen_case(rng, dict(bytes_defaults=0.4, null_ns_inside=0.05, max_nodes=16, max_depth=4, logical=rng.random() < 0.15),
                         dict(size_budget=30, big=0.0, mappings=0.0))
         if RC.raw_under_logical(case["node"], case["datum"]):
             continue
